@@ -12,19 +12,23 @@ Tie (X):  the imported module is compared with the model executed by Coq on the 
           constructor / == / != / hash, encode_transition, valid_charge, dict behaviour.
 Search:   the executable statement of the property itself, evaluated on the imported module.
 """
+import glob
+import json
 import math
 import os
+import subprocess
 import re
 import time
 
-from common import (REPO, COQ, qlit, zlit, coq_string, coqc, coqc_many, parse_evals, parse_zlist)
+from common import (REPO, COQ, VERIF, qlit, zlit, coq_string, coqc, coqc_many, parse_evals, parse_zlist)
 from c19_translate import translate, TranslateError
 
 THEOREMS = ["C19_element_lookup_by_every_identifier", "C19_isotope_lookup_by_every_identifier",
             "C19_unknown_keys_rejected", "C19_names_and_symbols_unique",
             "C19_atomic_numbers_match_periodic_table", "C19_isotopes_consistent",
             "C19_eq_hash_agree", "C19_eq_hash_any_same_class", "C19_line_eq_hash_agree",
-            "C19_species_work_as_dict_keys", "C19_lines_work_as_dict_keys"]
+            "C19_species_work_as_dict_keys", "C19_lines_work_as_dict_keys",
+            "C19_isotope_number_by_construction", "C19_wf_key_clauses_necessary"]
 
 HEADER = ("Require Import Cherab.Common.Qx.\nFrom Coq Require Import String.\n"
           "Require Import Cherab.Model.C19_Registry Cherab.Model.C19_Check.\n")
@@ -293,10 +297,14 @@ def search_property(impl, rng, rows, alts, thorough=False):
         # a species that differs in exactly one field is a different species: == False, != True
         ref = impl.ref_fields(n, o)
         for fi, what in ((1, "name"), (2, "symbol"), (len(ref) - 2, "atomic number" if ref[0] == "elem" else "mass number"),
-                         (len(ref) - 1, "atomic weight")):
+                         (len(ref) - 1, "atomic weight"), (len(ref) - 1, "atomic weight (by one ulp)")):
             r = list(ref)
-            r[fi] = r[fi] + "x" if isinstance(r[fi], str) else (r[fi] + 1 if isinstance(r[fi], int) else r[fi] + 0.5)
+            r[fi] = r[fi] + "x" if isinstance(r[fi], str) else (r[fi] + 1 if isinstance(r[fi], int) else
+                                                                 (math.nextafter(r[fi], math.inf) if "ulp" in what else r[fi] + 0.5))
             m = impl.build(tuple(r))
+            if ((m == o) or (o == m)) and hash(m) != hash(o):
+                fail("mutant-eq-hash:%s:%s" % (type(o).__name__, what), "a species that differs from %s only in its %s compares equal "
+                     "to it but hashes differently" % (n, what), species=n, fields=repr(tuple(r)))
             if (m == o) or not (m != o) or (o == m) or not (o != m):
                 fail("mutant-ne:%s:%s" % (type(o).__name__, what), "a species that differs from %s only in its %s: == gives %s, != gives %s"
                      % (n, what, m == o, m != o), species=n, fields=repr(tuple(r)))
@@ -402,7 +410,7 @@ def run(ctx):
 
     tie_ok = False
     diff_meta = []
-    n_cases = 0
+    n_cases = n_distinct = n_err = 0
     dist = {}
     samples = []
     if stmts is not None:
@@ -457,6 +465,8 @@ def run(ctx):
         if ok_s:
             cases, meta = build_cases(ctx, impl, stmts, rows, rng, quick, dist)
             n_cases = len(cases)
+            n_distinct = len({cases[i] for i in range(n_cases) if not meta[i]["kind"].startswith("trivial:")})
+            n_err = sum(1 for i in range(n_cases) if " EErr" in cases[i] or meta[i]["kind"].endswith("rejected"))
             heavy = [i for i in range(n_cases) if meta[i]["kind"] == "dict_scenario"]
             light = [i for i in range(n_cases) if meta[i]["kind"] != "dict_scenario"]
             groups = [[i] for i in heavy] + [light[k:k + 500] for k in range(0, len(light), 500)]
@@ -492,6 +502,10 @@ def run(ctx):
     ctx.obligation("executable property on the implementation (%d elements, %d isotopes, all pairs)"
                    % (len(impl.elements), len(impl.isotopes)), "search", not fails, str(fails[:3]))
     ctx.log("search: %d failures (%.1fs)" % (len(fails), time.time() - t0))
+    if ctx.replay:
+        want = json.load(open(ctx.replay)).get("key", "")
+        hit = [f for f in fails if "c19:" + f["key"] == want]
+        ctx.log("replay %s: key %s %s" % (ctx.replay, want, "FAILS AGAIN: %s" % hit[0]["claim"] if hit else "no longer fails"))
     seen_keys = set()
     for f in fails:
         if f["key"] in seen_keys or len(seen_keys) >= 6:
@@ -510,7 +524,8 @@ def run(ctx):
 
     ctx.coverage.update({
         "evaluations": n_cases,
-        "distinct_nontrivial": sum(v for k, v in dist.items() if not k.startswith("trivial:")),
+        "distinct_nontrivial": n_distinct,
+        "expected_error_cases": n_err,
         "rule": "one case = one call of the implementation (a lookup, a comparison of two objects, a Line constructor, one dict "
                 "scenario, one exported object) compared exactly with the model evaluated by Coq; trivial = comparison of an "
                 "object with itself; the table tie (Tie.v) and the search enumerate ALL exported objects and all pairs",
@@ -523,6 +538,10 @@ def run(ctx):
         "search": {"failures": len(fails), "pairs_compared": len(impl.exports) * (len(impl.exports) - 1) // 2},
     })
     ctx.coverage["samples"] = samples
+    if not quick:
+        p = subprocess.run(["coqchk", "-silent", "-o", "-Q", COQ, "Cherab", "Cherab.Properties.C19"], cwd=COQ,
+                           stdout=subprocess.PIPE, stderr=subprocess.STDOUT, text=True, timeout=1800)
+        ctx.obligation("coqchk -o Cherab.Properties.C19", "coqchk", p.returncode == 0, p.stdout[-1500:])
     ctx.grep_gate()
 
 
@@ -538,7 +557,7 @@ def build_cases(ctx, impl, stmts, rows, rng, quick, dist):
         meta.append(dict(m, kind=kind))
         dist[kind] = dist.get(kind, 0) + 1
 
-    extra = 1 if quick else 4
+    extra = 1 if quick else 5
     wdec = {}
     for s in stmts:
         wdec[s["attr"]] = s["w_exact"]
@@ -572,6 +591,12 @@ def build_cases(ctx, impl, stmts, rows, rng, quick, dist):
         add(kind, "check_lookup_isotope en ixe ixi %s %s %s" % (arg_lit(a), optz(number), ex),
             call="lookup_isotope(%r, number=%r)" % (a, number), got=shown)
 
+    for path in sorted(glob.glob(os.path.join(VERIF, "corpus", "C19", "*.json"))):
+        for c in json.load(open(path)).get("cases", []):
+            if c["fn"] == "lookup_element":
+                le("corpus:lookup_element", c["arg"])
+            else:
+                li("corpus:lookup_isotope", c["arg"], c.get("number"))
     for attr, e in impl.elements:
         for ident, what in ((e.name, "name"), (e.symbol, "symbol"), (str(e.atomic_number), "numstr")):
             for s in variants(ident, rng, extra):
@@ -680,9 +705,14 @@ def build_cases(ctx, impl, stmts, rows, rng, quick, dist):
             if both or not side:
                 eq("eq_element_vs_isotope", ("attr", copy[3]), ("attr", attr))
                 eq("eq_cross_class_same_fields", ("attr", attr), base)
-    for _ in range(400 if quick else 6000):
-        a, b = rng.choice(names), rng.choice(names)
-        eq("eq_random_pair", ("attr", a), ("attr", b))
+    if quick:
+        for _ in range(400):
+            a, b = rng.choice(names), rng.choice(names)
+            eq("eq_random_pair", ("attr", a), ("attr", b))
+    else:
+        for a in names:                      # every ordered pair of exported objects
+            for b in names:
+                eq("eq_all_pairs" if a != b else "trivial:eq_self", ("attr", a), ("attr", b))
 
     # -- lines ----------------------------------------------------------------------------------------------------
     trans_pool = [(3, 2), (4, 2), (2, 3), ("2s1 3p1 3P4.0", "2s1 3s1 3S1.0"), ("2S1 3P1 3P4.0", "2s1 3s1 3S1.0"),
